@@ -70,6 +70,10 @@ func c05Build(ops []c05Op) (*parser.Builder, error) {
 	lb := lexer.NewBuilder()
 	types := map[string]token.Type{}
 	for _, o := range ops {
+		if tt, ok := c05BuiltTok[o.Lexeme]; ok {
+			types[o.Lexeme] = tt // an additional role for a built-in token
+			continue
+		}
 		types[o.Lexeme] = lb.RegisterTokenType("custom" + o.Lexeme)
 	}
 	lb.UseTokenInterceptor(func(l *lexer.Lexer, next func() token.Token) token.Token {
@@ -107,20 +111,36 @@ func c05Build(ops []c05Op) (*parser.Builder, error) {
 }
 
 func c05ModelToks(ops []c05Op, toks []string) []pratt.Tok {
+	// a lexeme may carry a prefix role in addition to an infix or postfix role
 	custom := map[string]c05Op{}
+	alsoPrefix := map[string]bool{}
 	for _, o := range ops {
-		custom[o.Lexeme] = o
+		if o.Role == "prefix" {
+			alsoPrefix[o.Lexeme] = true
+			if _, ok := custom[o.Lexeme]; ok {
+				continue
+			}
+		}
+		if prev, ok := custom[o.Lexeme]; !ok || prev.Role == "prefix" {
+			custom[o.Lexeme] = o
+		}
 	}
 	var out []pratt.Tok
 	for _, s := range toks {
 		if o, ok := custom[s]; ok {
+			_, builtin := builtinBin[s]
 			switch o.Role {
 			case "infix":
-				out = append(out, pratt.Tok{Text: s, Role: pratt.InfixLeft, Level: o.Level, Custom: true})
+				out = append(out, pratt.Tok{Text: s, Role: pratt.InfixLeft, Level: o.Level, Custom: true, AlsoPrefix: alsoPrefix[s]})
 			case "prefix":
-				out = append(out, pratt.Tok{Text: s, Role: pratt.Prefix, Custom: true})
+				if builtin {
+					// a registered prefix role on a built-in binary operator (unary plus)
+					out = append(out, pratt.Tok{Text: s, Role: pratt.InfixLeft, Level: builtinBin[s], AlsoPrefix: true, CustomPrefix: true})
+				} else {
+					out = append(out, pratt.Tok{Text: s, Role: pratt.Prefix, Custom: true})
+				}
 			default:
-				out = append(out, pratt.Tok{Text: s, Role: pratt.Postfix, Level: pratt.Call, Custom: true})
+				out = append(out, pratt.Tok{Text: s, Role: pratt.Postfix, Level: pratt.Call, Custom: true, AlsoPrefix: alsoPrefix[s]})
 			}
 			continue
 		}
@@ -247,6 +267,14 @@ func c05Check(c c05Case, rec *evid.Recorder) *Fail {
 		}
 	}
 	allPeered := true
+	seenLex := map[string]bool{}
+	for _, o := range c.Ops {
+		// the textual replacement cannot tell two roles of one lexeme apart
+		if _, builtin := c05BuiltTok[o.Lexeme]; builtin || seenLex[o.Lexeme] {
+			allPeered = false
+		}
+		seenLex[o.Lexeme] = true
+	}
 	for _, o := range c.Ops {
 		if _, ok := repl[o.Lexeme]; !ok {
 			for _, t := range c.Toks {
@@ -392,6 +420,21 @@ func c05Gen(t *rapid.T, rec *evid.Recorder) c05Case {
 	}
 	if r.Bool("postfix") {
 		ops = append(ops, c05Op{Lexeme: "?", Role: "postfix"})
+	}
+	// tokens with two roles: a prefix role on a lexeme that is also a registered
+	// infix or postfix operator, and on a built-in binary operator (unary plus)
+	switch r.Intn(6, "tworoles") {
+	case 0:
+		ops = append(ops, c05Op{Lexeme: lex[0], Role: "prefix"})
+		rec.Class("two-roles:infix+prefix")
+	case 1:
+		if ops[len(ops)-1].Role == "postfix" {
+			ops = append(ops, c05Op{Lexeme: "?", Role: "prefix"})
+			rec.Class("two-roles:postfix+prefix")
+		}
+	case 2:
+		ops = append(ops, c05Op{Lexeme: []string{"+", "*", "==", "&&"}[r.Intn(4, "builtinpre")], Role: "prefix"})
+		rec.Class("two-roles:builtin-infix+prefix")
 	}
 	return c05Case{Ops: ops, Toks: c05GenToks(r, ops, 3+r.Intn(20, "len"))}
 }
